@@ -271,7 +271,7 @@ func (db *DB) loadSchema(of Object) (s *Schema, err error) {
 	}
 
 	if stat.Mode().IsRegular() {
-		if err = unmarshalJsonFile(path, &s); err != nil {
+		if err = unmarshalJsonFile(path, &s, false); err != nil {
 			return
 		}
 
@@ -452,7 +452,7 @@ func (db *DB) get(in Object) (out Object, err error) {
 	}
 
 	path = filepath.Join(db.oDir(in), s.filename(in))
-	err = unmarshalJsonFile(path, in)
+	err = unmarshalJsonFile(path, in, s.Compress)
 	out = in
 
 	// we cache the object, only if it could be read
@@ -529,7 +529,7 @@ func (db *DB) rollback(s *Schema, o Object) {
 
 	old := newIterator(db, o, nil).object()
 	old.Initialize(o.UUID())
-	if err := unmarshalJsonFile(db.oPath(s, old), old); err == nil {
+	if err := unmarshalJsonFile(db.oPath(s, old), old, s.Compress); err == nil {
 		if err = s.index(old); err == nil {
 			return
 		}
